@@ -672,6 +672,7 @@ def part_g(ctx, rng, n):
     from harness import caseutil
     from harness.props.c14 import shape_term
     terms, meta = [], []
+    terms2, meta2 = [], []
     nobs = 0
     for it in range(n):
         cls = rng.choice([OOBTree, OOTreeSet])
@@ -773,6 +774,46 @@ def part_g(ctx, rng, n):
                             shape_term(sh), d, "true" if sepcheck else "false", caseutil.z(k), "false" if raised else "true",
                             "; ".join("(%s, [%s])" % (caseutil.z(sk), "; ".join("%d%%nat" % i for i in pins)) for sk, pins in obs)))
                         meta.append((cls.__name__, sizes_, ks, name, k, failing, obs))
+            # keys / values / items (min, max): one pin of the root over both range-end searches
+            for _ in range(3):
+                k1, k2 = rng.randrange(-1, 93), rng.randrange(-1, 93)
+                meth = "keys" if setlike else rng.choice(["keys", "values", "items"])
+                total = None
+                for failing in [None] + list(range(1, 10)):
+                    if failing is not None and (total is None or failing > total):
+                        break
+                    jar.abort()
+                    jar.minimize()
+                    obs = []
+
+                    def hook2(stored):
+                        obs.append((stored, [i for i, o in enumerate(nodes) if o._p_state == STICKY]))
+                        if failing is not None and len(obs) == failing:
+                            raise _Boom()
+                    PinKey.hook = hook2
+                    raised = False
+                    try:
+                        r = getattr(t, meth)(PinKey(k1, True), PinKey(k2, True))
+                        del r
+                    except _Boom:
+                        raised = True
+                    finally:
+                        PinKey.hook = None
+                    if failing is None:
+                        total = len(obs)
+                    nobs += len(obs)
+                    stk = sticky_nodes(jar)
+                    if stk:
+                        ctx.oracle_failure("C:%s:sticky-after:%s-two-bounds%s" % (cls.__name__, meth, "-raising" if raised else ""),
+                                           "%s sizes=%r keys %r stored: %s(%d, %d)%s leaves %d node(s) pinned (_p_state == 2)" % (
+                                               cls.__name__, sizes_, ks, meth, k1, k2, (" with comparison #%d raising" % failing) if raised else "", len(stk)),
+                                           {"kind": cls.__name__, "sizes": list(sizes_), "keys": ks, "call": meth, "bounds": [k1, k2], "failing": failing})
+                        for o in stk:
+                            o._p_deactivate()
+                    terms2.append("PINC2 %s %s %s %s [%s]" % (
+                        shape_term(sh), caseutil.z(k1), caseutil.z(k2), "false" if raised else "true",
+                        "; ".join("(%s, [%s])" % (caseutil.z(sk), "; ".join("%d%%nat" % i for i in pins)) for sk, pins in obs)))
+                    meta2.append((cls.__name__, sizes_, ks, meth, (k1, k2), failing, obs))
             ctx.count(("g-pins", setlike, sizes_, tuple(ks)))
         finally:
             cls.max_leaf_size, cls.max_internal_size = old
@@ -785,7 +826,16 @@ def part_g(ctx, rng, n):
         ctx.corr_mismatch("pin model (Model/Pins.v: which nodes are sticky at each comparison) vs the C extension",
                           {"kind": m[0], "sizes": list(m[1]), "keys": m[2], "call": m[3], "key": m[4], "failing_comparison": m[5],
                            "observed (stored key, pinned preorder indexes)": m[6]})
-    ctx.cov["calls_compared_with_the_pin_model"] = total
+    total2, bad2, errs2 = caseutil.eval_cases("c05pins2", PIN_HDR, "pincase2_ok", terms2, shard=400, ctype="wpincase2")
+    for e in errs2:
+        ctx.corr_mismatch("c05 pin case file (two bounds)", e)
+    for i in bad2[:5]:
+        m = meta2[i]
+        ctx.corr_mismatch("pin model (Model/Pins.v range2_tr: sticky nodes at each comparison of keys/values/items(min, max)) vs the C extension",
+                          {"kind": m[0], "sizes": list(m[1]), "keys": m[2], "call": m[3], "bounds": list(m[4]), "failing_comparison": m[5],
+                           "observed (stored key, pinned preorder indexes)": m[6]})
+    ctx.cov["calls_compared_with_the_pin_model"] = total + total2
+    ctx.cov["range_queries_with_two_bounds_compared_with_the_pin_model"] = total2
     ctx.cov["comparisons_observed_with_their_pinned_nodes"] = nobs
 
 
